@@ -205,6 +205,9 @@ func scanStringLiteralToken(buf string, pos int) Token {
 			}
 			c2 := buf[pos+i]
 			bb.WriteByte(c2)
+		} else if c == '\n' {
+			// the value is emitted as a Go interpreted string literal, which cannot contain a raw newline.
+			bb.WriteString("\\n")
 		} else {
 			bb.WriteByte(c)
 		}
